@@ -245,6 +245,43 @@ pub fn io(ev: impl FnOnce() -> IoEvent) {
 }
 
 // ---------------------------------------------------------------------------------------
+// Access tap (H6): every byte range fetched from the mapping or the data file on behalf of a reader.
+
+#[derive(Debug, Clone)]
+pub enum AccessEvent {
+    /// `Reader::unchecked_read`: bytes `[start+offset, start+offset+len)` of the mapping at `base`
+    Read { base: usize, start: usize, snap_len: usize, offset: usize, len: usize },
+    /// `Reader::prefixed`: a pointer into the mapping is handed out (nothing dereferenced yet)
+    Prefixed { base: usize, start: usize, snap_len: usize, offset: usize },
+    /// a raw pointer dereference of `len` bytes at address `addr`
+    Ptr { addr: usize, len: usize },
+    /// a positioned read of the data file
+    File { offset: usize, len: usize },
+}
+
+pub type AccessTap = dyn Fn(&AccessEvent) + Send + Sync;
+
+static ACCESS_TAP: StdRwLock<Option<Arc<AccessTap>>> = StdRwLock::new(None);
+static ACCESS_ON: AtomicBool = AtomicBool::new(false);
+
+pub fn set_access_tap(tap: Option<Arc<AccessTap>>) {
+    let on = tap.is_some();
+    *ACCESS_TAP.write().unwrap() = tap;
+    ACCESS_ON.store(on, Ordering::SeqCst);
+}
+
+#[inline]
+pub fn access(ev: impl FnOnce() -> AccessEvent) {
+    if !ACCESS_ON.load(Ordering::Relaxed) {
+        return;
+    }
+    let tap = ACCESS_TAP.read().unwrap().clone();
+    if let Some(tap) = tap {
+        tap(&ev());
+    }
+}
+
+// ---------------------------------------------------------------------------------------
 // Named pause points (H5): a controller may block a thread at a named program point.
 
 pub type PauseTap = dyn Fn(&'static str) + Send + Sync;
